@@ -46,6 +46,32 @@ func c15r5(c *core.Ctx) {
 		return
 	}
 	n := 0
+	// the role may be called through a helper of the storage that shrinks one table
+	shrinkers := map[*core.Func]bool{shrink: true}
+	for changed := true; changed; {
+		changed = false
+		for _, f := range m.Funcs {
+			if shrinkers[f] || f.Recv != "storage" || f.Obj == nil || f.Obj.Exported() {
+				continue
+			}
+			inLoop, calls := false, false
+			core.InspectNoLits(f.Body, func(x ast.Node) bool {
+				if call, ok := x.(*ast.CallExpr); ok {
+					if k, cal, _ := m.Callee(call); k == core.CallStatic && shrinkers[cal] {
+						calls = true
+						if enclosingLoopOf(f, call) != nil {
+							inLoop = true
+						}
+					}
+				}
+				return true
+			})
+			if calls && !inLoop {
+				shrinkers[f] = true
+				changed = true
+			}
+		}
+	}
 	for _, f := range m.Funcs {
 		if f.Recv != "storage" {
 			continue
@@ -55,7 +81,7 @@ func c15r5(c *core.Ctx) {
 			if !ok {
 				return true
 			}
-			if _, ok := callTo(m, call, shrink); !ok {
+			if k, cal, _ := m.Callee(call); k != core.CallStatic || !shrinkers[cal] {
 				return true
 			}
 			loop := enclosingLoopOf(f, call)
